@@ -7,6 +7,8 @@ import (
 	"sync"
 	"sync/atomic"
 	"time"
+
+	"hop.computer/hop/pkg/verifhook"
 )
 
 // Deadline implements a deadline following the requirements of the net.Conn
@@ -37,6 +39,7 @@ func (d *Deadline) Done() <-chan struct{} {
 // Cancel sends err to every channel created by calling Done
 // This allows selects statements to return before the deadline expires
 func (d *Deadline) Cancel(err error) {
+	verifhook.Yield("common.Deadline.Cancel:enter")
 	d.m.Lock()
 	defer d.m.Unlock()
 
@@ -141,11 +144,13 @@ func (d *DeadlineChan[T]) Recv() (b T, err error) {
 	default:
 		break
 	}
+	verifhook.Yield("common.DeadlineChan.Recv:after-poll")
 
 	if d.closed.Load() {
 		err = io.EOF
 		return
 	}
+	verifhook.Yield("common.DeadlineChan.Recv:after-closed-check")
 
 	errChan := d.deadline.Done()
 	select {
@@ -153,6 +158,7 @@ func (d *DeadlineChan[T]) Recv() (b T, err error) {
 		err = d.deadline.Err()
 		return
 	default:
+		verifhook.Yield("common.DeadlineChan.Recv:before-wait")
 		select {
 		case <-errChan:
 			err = d.deadline.Err()
@@ -167,6 +173,7 @@ func (d *DeadlineChan[T]) Recv() (b T, err error) {
 // If the deadline is exceeded, Cancel is called, or Close is called,
 // err will not be nil.
 func (d *DeadlineChan[T]) Send(b T) (err error) {
+	verifhook.Yield("common.DeadlineChan.Send:enter")
 	d.m.Lock()
 	defer d.m.Unlock()
 
@@ -192,6 +199,7 @@ func (d *DeadlineChan[T]) Send(b T) (err error) {
 
 // SetDeadline sets a time at which calls to Send and Recv will timeout
 func (d *DeadlineChan[T]) SetDeadline(t time.Time) error {
+	verifhook.Yield("common.DeadlineChan.SetDeadline:enter")
 	if d.closed.Load() {
 		return io.EOF
 	}
@@ -201,6 +209,7 @@ func (d *DeadlineChan[T]) SetDeadline(t time.Time) error {
 // Cancel cancels pending calls to Send and Recv and causes them to return err
 // TODO(hosono) when should Recv return buffered data
 func (d *DeadlineChan[T]) Cancel(err error) error {
+	verifhook.Yield("common.DeadlineChan.Cancel:enter")
 	if d.closed.Load() {
 		return io.EOF
 	}
@@ -211,6 +220,7 @@ func (d *DeadlineChan[T]) Cancel(err error) error {
 // Close cancels pending calls to Send and Recv. Those calls will return
 // io.EOF rather than os.ErrDeadlineExceeded even after the deadline has expired
 func (d *DeadlineChan[T]) Close() error {
+	verifhook.Yield("common.DeadlineChan.Close:enter")
 	d.m.Lock()
 	defer d.m.Unlock()
 
